@@ -441,6 +441,7 @@ func (p *JoinAcceptPayload) UnmarshalBinary(uplink bool, data []byte) error {
 	}
 	p.RXDelay = uint8(data[11])
 
+	p.CFList = nil
 	if l == 28 {
 		p.CFList = &CFList{}
 		if err := p.CFList.UnmarshalBinary(data[12:]); err != nil {
